@@ -14,6 +14,7 @@ import subprocess
 import time
 import vlib
 from props import c14d
+from props import c14f
 
 EXPECT_REPLY = ("sub", "leave", "deltopic", "deluser")
 
@@ -39,7 +40,7 @@ class Scn:
             else:
                 out.append("me %d %d" % (k, t["owner"]))
         for si, s in sorted(self.sessions.items()):
-            out.append("sess %d %d%s" % (si, s["user"], (" cap=%d" % s["cap"]) if s.get("cap") else ""))
+            out.append("sess %d %d%s%s" % (si, s["user"], (" cap=%d" % s["cap"]) if s.get("cap") else "", " root=1" if s.get("root") else ""))
         for b in self.bursts:
             out += b + ["go"]
         out.append("end")
@@ -493,6 +494,11 @@ def parse_out(text):
             d["haschan"] = "chansess" in d
             d["chansess"] = set(int(x) for x in d.get("chansess", "").split(",") if x)
             d["chanusers"] = set(int(x) for x in d.get("chanusers", "").split(",") if x)
+            # round s14f: the user each attached session is attached AS (perSessionData.uid); users with a subscription row
+            if "asuser" in d:
+                d["asuser"] = dict((int(a), int(c)) for a, c in (x.split(":") for x in d["asuser"].split(",") if x))
+            if "subrows" in d:
+                d["subrows"] = set(int(x) for x in d["subrows"].split(",") if x)
             b["topics"][int(w[2])] = d
         elif w[0] == "goroutines":
             b["goroutines"] = int(w[1])
@@ -613,6 +619,7 @@ def monitor(sc, r):
         if law in RACY and (allowed is None or law not in allowed):
             law = ("unexpected-in-random-burst-" if allowed is None else "unexpected-in-corpus-scenario-") + law
         res.append((law, bi, detail))
+    res += c14f.laws_obo_c14f(sc, r)
     return res
 
 
@@ -807,7 +814,8 @@ def monitor0(sc, r):
                 res.append(("terminated-detached", bi, "topic %d lists sessions of an earlier scenario: %s" % (k, t["foreign"])))
             cnt = {}
             for si in t["sessions"]:
-                u = b["sess"][si]["user"]
+                # the user the session is attached AS (a root session acting on behalf of somebody: that user)
+                u = t.get("asuser", {}).get(si, b["sess"][si]["user"])
                 cnt[u] = cnt.get(u, 0) + 1
             for u in set(cnt) | set(t["online"]):
                 have = t["online"].get(u)
@@ -1022,8 +1030,9 @@ def run(ctx):
     rng = ctx.rng
     if ctx.replay:
         rp = json.load(open(ctx.replay))
-        bursts = [Scn.from_replay("replay%d" % i, rp["replay"]["scenario"]) for i in range(20)]
+        bursts = [Scn.from_replay("replay%d" % i, rp["replay"]["scenario"]) for i in range(20)] if "scenario" in rp["replay"] else []
         seqs = []
+        obos = [sc for sc in bursts[:1] if any(s.get("root") for s in sc.sessions.values())]
     else:
         bursts = []
         cdir = os.path.join(vlib.ROOT, "corpus", ctx.pid)
@@ -1039,6 +1048,9 @@ def run(ctx):
         # round s14d: failed {del topic} followed by member requests; one stalled session attached to 66-78 topics
         bursts += [c14d.gen_fault_scn_c14d(rng, "x%d" % i) for i in range(40 if quick else 600)]
         bursts += [c14d.gen_many_scn_c14d(rng, "y%d" % i) for i in range(6 if quick else 60)]
+        # round s14f: root sessions attached on behalf of users (extra.obo), sequential; compared with the model below
+        obos = [c14f.gen_obo_scn_c14f(Scn, rng, "o%d" % i) for i in range(50 if quick else 600)]
+        bursts += obos
         seqs = [gen_seq_scn(rng, "s%d" % i) for i in range(150 if quick else 1500)]
     t0 = time.time()
     results, logs = run_driver(ctx, bursts + seqs)
@@ -1098,6 +1110,11 @@ def run(ctx):
                           % (len(mism), compared, k, sc.bursts[k], json.dumps(d)[:900], len(bursts)),
                           {"correspondence": "sequential schedules of C14", "scenario": small.replay(), "driver_input": small.lines(), "model_input": model_lines(small), "diff": d})
 
+    # round s14f: online counters of the obo scenarios against the model; the session registry (own driver, own model)
+    if not [law for law in fails if law not in set(f["key"] for f in ctx.load_findings() if f["property"] == ctx.pid)]:
+        c14f.compare_obo_c14f(ctx, obos, results)
+    cov14f = c14f.run_registry_c14f(ctx, quick)
+
     # thorough: the same bursts under the race detector (testing in support; no theorem covers memory accesses)
     race = None
     if not quick and not ctx.replay:
@@ -1130,6 +1147,7 @@ def run(ctx):
     ctx.coverage.update({
         "evaluations": len(bursts) + len(seqs), "distinct_nontrivial": len(nontrivial),
         "rule": "seeded random scenarios: 2-4 users, 1-2 sessions each (+ optionally one session with a 2-slot send queue whose writer is stalled: slow-consumer eviction), 1-2 group/channel topics, a 'me' topic per user, optionally a p2p topic; BURST scenarios: 3-7 bursts in which ~70% of the sessions issue 1-3 requests each concurrently (sub/leave/unsub/pub/del-topic/del-user/disconnect) plus injected idle unloads, then a final burst re-subscribing to every group topic; CHANNEL scenarios (gen_chan_scn_c14c): one channel-enabled topic whose users are partly group subscribers (grpXXX) and partly readers (chnXXX), optionally a plain group topic, 1-2 sessions with a 2-slot send queue; requests carry the name form (as=grp|chn): attach under either name, {leave} / {leave unsub} under either name, slow-consumer phases (writers stalled, the owner publishes 3-4 messages, the third broadcast drops the session), disconnects, idle unloads, a final re-subscribe under both names; SEQUENTIAL scenarios: 6-18 single requests over group topics with and without channel functionality, {leave} under either name, a channel name for a plain group now and then (the model's alphabet), compared exactly with the extracted model (replies, Session.subs, Topic.sessions, isChanSub flags, loaded/stored, terminated); FAILED-DELETE scenarios (round s14d, gen_fault_scn_c14d; also in the sequential scenarios: 45% of the owners' {del topic}): the owner's {del what=topic} meets a failing store.Topics.Delete (request suffix fault=TopicDelete: memverif.SetHook arms the fault for exactly that adapter call) on a loaded topic with sessions attached or on an unloaded one, alone in its burst, followed by 2-4 bursts of leave / unsubscribe / subscribe / publish / disconnect of the members, a second failed delete, a successful delete, a final re-subscription; MANY-TOPICS scenarios (gen_many_scn_c14d): one session attached to 66-78 group topics of one owner, its writer stalled, then {del user} of the owner / all topics deleted at once / both / the user's other session unsubscribes from all of them (evictUser), then the writer resumes and the session asks for four of the topics again; non-trivial = at least one request accepted (200); distinct by (requests, replies)",
+        "round_s14f": cov14f, "obo_scenarios": len(obos),
         "burst_scenarios": len(bursts), "sequential_scenarios": len(seqs), "concurrent_bursts": conc, "requests_issued": nreq,
         "traces_validated_against_impl": compared, "correspondence_mismatches": len(mism),
         "monitor_failures": {k: len(v) for k, v in fails.items()},
